@@ -543,6 +543,12 @@ class ExprMixin:
             li = None if lo is None else self.concrete_int(lo)
             hi_ = None if hi is None else self.concrete_int(hi)
             return type(v)(v.items[li:hi_])
+        if isinstance(v, PyComp) and hi is None:
+            k = 0 if lo is None else self.concrete_int(lo)
+            if k < 0:
+                raise Unsupported("slice of a list argument from a negative index")
+            j2 = fresh("sj", z3.IntSort())
+            return PyComp(z3.If(v.length >= k, v.length - k, 0), j2, v.at(j2 + k))
         if not (is_str(v) or is_seq(v)):
             raise Unsupported("slice of " + type(v).__name__)
         n = z3.Length(v)
@@ -592,6 +598,16 @@ class ExprMixin:
             if is_str(v):
                 return z3.SubString(v, j, 1)
             return v[j]
+        if isinstance(v, PyObj) and v.cls == "EncodedStr":
+            # s.encode()[k]: for text made of ASCII characters the k-th byte is the code of the k-th character
+            txt = v.fields["s"]
+            n = z3.Length(txt)
+            self.safety(s, z3.And(i >= 0, i < n), f"subscript `{ast.unparse(node)[:60]}` in range (IndexError)", node)
+            code = z3.StrToCode(z3.SubString(txt, i, 1))
+            jq = z3.Int("enc!q")
+            self.vc(s, z3.ForAll([jq], z3.Implies(z3.And(jq >= 0, jq <= i), z3.And(z3.StrToCode(z3.SubString(txt, jq, 1)) >= 0, z3.StrToCode(z3.SubString(txt, jq, 1)) < 128))),
+                    "safety", f"`{ast.unparse(node)[:60]}`: the text up to that index is ASCII (byte index == character index)", getattr(node, "lineno", 0))
+            return code
         if isinstance(v, PyAbsList):
             k = self.concrete_int(i)
             if k not in (0, -1):
